@@ -1,8 +1,8 @@
 SPECIFICATION Spec
-CONSTANTS K = 2
+CONSTANTS K = 1
           KO = 0
           W = 1
-          Ext = FALSE
-          ValSet = "plain"
+          Ext = TRUE
+          ValSet = "ext"
 INVARIANTS Emit EmitVals
 CHECK_DEADLOCK FALSE
